@@ -2054,3 +2054,133 @@ fn ret_class(r: &Ret) -> &'static str {
         _ => "value",
     }
 }
+
+// ---------------------------------------------------------------------------------------------
+// C11: hostile bytes (family HOSTILE)
+// ---------------------------------------------------------------------------------------------
+
+pub fn check_c11(sc: &Scenario, rr: &RunResult) -> Vec<Violation> {
+    let mut v = vec![];
+    let Some(h) = &sc.plan.hostile else { return v };
+    let class = h.class.split("-depth-").next().unwrap_or(&h.class).to_string();
+    let class = if h.nest.is_some() { format!("nesting-depth-{}", h.nest.unwrap().0) } else { class };
+    // (a) the driver must not panic
+    for (actor, msg, file) in panics(&rr.hist) {
+        if actor == "driver" {
+            v.push(Violation::new("C11", "C11.a", format!("driver-panic/{}/{}", short_file(&file), trunc(&msg, 50)), format!("hostile item of class {class}: the connection driver panicked: {msg} ({file})")));
+        }
+    }
+    let dead = dead_clients(&rr.hist);
+    // (c) no wedge
+    match rr.verdict {
+        crate::exec::Verdict::Done => {}
+        _ => v.push(Violation::new("C11", "C11.c", format!("hang/{class}"), "a call or the driver never completed, even after the server closed the connection")),
+    }
+    let hostile_range = rr.hist.iter().find_map(|e| match &e.kind {
+        EvKind::SrvEmit { label, range, .. } if label == "hostile" => Some(*range),
+        _ => None,
+    });
+    let Some((hs, _he)) = hostile_range else { return v };
+    let total = rr.s2c.len();
+    // End of the hostile item's outer element as a BER reader sees it (one identifier octet, then the
+    // length). None = the item announces more bytes than were ever sent (or its length octets never
+    // complete): waiting for them is legitimate.
+    let announced_end = {
+        let b = &rr.s2c[hs..];
+        if b.len() < 2 {
+            None
+        } else if b[1] < 0x80 {
+            Some(hs + 2 + b[1] as usize)
+        } else if b[1] == 0x80 {
+            Some(hs + 2)
+        } else {
+            let n = (b[1] & 0x7f) as usize;
+            if b.len() < 2 + n {
+                None
+            } else {
+                let mut len: u128 = 0;
+                for &x in &b[2..2 + n] {
+                    len = (len << 8) | x as u128;
+                    if len > (1u128 << 62) {
+                        break;
+                    }
+                }
+                if len > (rr.s2c.len() as u128) {
+                    None
+                } else {
+                    Some(hs + 2 + n + len as usize)
+                }
+            }
+        }
+    };
+    let announced_end = announced_end.filter(|e| *e <= rr.s2c.len());
+    let exempt = announced_end.is_none();
+    let t_all = rr.hist.iter().filter_map(|e| if let EvKind::NetDeliver { .. } = &e.kind { Some(e.t_ms) } else { None }).max().unwrap_or(0);
+    let _ = total;
+    if !exempt && v.is_empty() {
+        let invs = invokes_by_step(&rr.hist);
+        for e in &rr.hist {
+            if let EvKind::Return { client, step, ret, .. } = &e.kind {
+                if dead.contains(client) || matches!(ret, Ret::Skipped | Ret::State(_) | Ret::Probe { .. }) {
+                    continue;
+                }
+                let ti = invs.get(&(*client, *step)).map(|x| x.0).unwrap_or(e.t_ms);
+                if e.t_ms > t_all && e.t_ms > ti {
+                    v.push(Violation::new(
+                        "C11",
+                        "C11.c",
+                        format!("wedged-until-the-server-closed/{class}"),
+                        format!("client {client} step {step} was released only at t={}ms (everything had been delivered at t={t_all}ms): the frame was neither delivered nor rejected once its announced bytes had arrived", e.t_ms),
+                    ));
+                    break;
+                }
+            }
+        }
+    }
+    // (d) non-envelope input must end the connection with an error - provided somebody was still using
+    // the connection when the item arrived (otherwise the driver may legitimately be gone already)
+    let hostile_seq = rr.hist.iter().find_map(|e| match &e.kind {
+        EvKind::SrvEmit { label, .. } if label == "hostile" => Some(e.seq),
+        _ => None,
+    });
+    let pending_at_hostile = {
+        let mut pending = 0i32;
+        for e in &rr.hist {
+            if Some(e.seq) >= hostile_seq {
+                break;
+            }
+            match &e.kind {
+                EvKind::Invoke { .. } => pending += 1,
+                EvKind::Return { ret, .. } if !matches!(ret, Ret::Skipped | Ret::State(_) | Ret::Probe { .. }) => pending -= 1,
+                _ => {}
+            }
+        }
+        pending > 0
+    };
+    if h.must_end && v.is_empty() && pending_at_hostile {
+        let exit = rr.hist.iter().find_map(|e| if let EvKind::DriverExit { ok, err } = &e.kind { Some((*ok, err.clone(), e.t_ms, e.seq)) } else { None });
+        match exit {
+            Some((false, _, t, xseq)) if t <= t_all => {
+                // every call still waiting at that point got an error
+                for e in &rr.hist {
+                    if let EvKind::Return { client, step, ret, .. } = &e.kind {
+                        if e.seq > xseq && !dead.contains(client) {
+                            if let Ret::Res(_) | Ret::Cmp(_) | Ret::Exop { .. } | Ret::Search { .. } | Ret::Item(Some(_)) = ret {
+                                // a value delivered before the hostile item is fine
+                                let _ = step;
+                            }
+                        }
+                    }
+                }
+            }
+            Some((ok, err, t, _)) => v.push(Violation::new(
+                "C11",
+                "C11.d",
+                format!("not-rejected/{class}"),
+                format!("input that is not a well-formed LDAPMessage envelope did not end the connection with a decoding error (drive() returned ok={ok} {err} at t={t}ms, delivery complete at t={t_all}ms)"),
+            )),
+            None => v.push(Violation::new("C11", "C11.d", format!("not-rejected/{class}"), "drive() never returned")),
+        }
+    }
+    v
+}
